@@ -229,7 +229,8 @@ def run(ctx):
     if "ResultIsFunctionOfClass" not in r.violated:
         raise MachineryError("as-built spec does not violate the property - the as-built switch is vacuous")
     ctx.extra["asbuilt_counterexample"] = r.cex[:1500]
-    r = tlc.run("ClassTreeFlatten", "ClassTreeFlatten_asbuilt_closure.cfg", workers=min(procs, 8))
+    r = tlc.run("ClassTreeFlatten", "ClassTreeFlatten_asbuilt_closure.cfg" if thorough else "ClassTreeFlatten_asbuilt_closure_q.cfg",
+                workers=min(procs, 8))
     ctx.add_tlc(r, "as-built: operational touched set = declarative read-after-write conflict (SeenIsConflict)")
     if r.violated:
         raise MachineryError("as-built spec violates %s\n%s" % (r.violated, r.cex[:2000]))
@@ -244,8 +245,8 @@ def run(ctx):
     for l in rg.tr("LIB"):
         l["text"] = ct.render_flatten_lib(l)
         libs[l["id"]] = l
-    if len(libs) < 6:
-        raise MachineryError("expected 6 library shapes, got %d" % len(libs))
+    if len(libs) < 9:
+        raise MachineryError("expected 9 library shapes, got %d" % len(libs))
     inits = [{"lib": i, "touched": []} for i in sorted(libs)]
     g = graph.Graph(rg.tr(), init=inits)
     gi = graph.Graph(ri.tr(), init=inits)
